@@ -79,7 +79,7 @@ CSV_ATOMS = ["a", "b", ",", ",", '"', '"', '""', "\r\n", "\n", "\r", " ", "x y",
 MD_ATOMS = ["|", "|", "|", " | ", "\\|", "\\", "#", "-", "--", " ", "  ", "\t", "\n", "\n", "a", "B", "survey", "choices",
             "type", "name", "label", "x y", NBSP, "\r", "é", "Survey", "notes", "| |", "||", "settings"]
 HDR_ATOMS = [None, None, "", " ", "  ", "a", "b", " a", "a ", "a  b", "a b", NBSP + "c", "type", "name", "label::en", "\t", "d\te"]
-CELL_VALUES = [None, None, "", " ", "x", " x ", NBSP + "x" + NBSP, "A" + NBSP + "B", "1", "TRUE", True, False, 0, 1, -7, 42, 10**12,
+CELL_VALUES = [None, None, "", " ", "x", "Red" + NBSP + NBSP + "apple", "a " + NBSP + "b  c", NBSP + " x  y" + NBSP + " ", " x ", NBSP + "x" + NBSP, "A" + NBSP + "B", "1", "TRUE", True, False, 0, 1, -7, 42, 10**12,
                0.0, 1.0, -3.0, 1.5, 0.1, -2.75, 1e16, 1e22, 123456789.125, 3.14159, 1e-7, 3.141592653589793, 1 / 3, 0.1 + 0.2, -33.86785123456789, 2 ** 0.5, "\n", "a\nb", "  a  b  ", "\t"]
 
 
